@@ -99,14 +99,16 @@ Plain(st, n) == Len(st.parts[n]) = 1
 (* names: sequence of distinct module names; the first nb are libraries    *)
 (* the host registered when the state was created (objects t1..t<nb>).     *)
 (* parts[i]: components of names[i]; path: the templates of package.path   *)
-InitState(names, parts, nb, path) ==
+(* skip: the state was created without libraries (Options.SkipOpenLibs);    *)
+(* opened: the libraries the host has opened so far                         *)
+InitState(names, parts, nb, path, skip) ==
     LET NS == SeqSet(names)
         Idx(n) == CHOOSE i \in 1..Len(names) : names[i] = n
         v0 == [n \in NS |-> IF Idx(n) <= nb THEN Tbl(Idx(n)) ELSE Nil]
     IN [names |-> names, parts |-> [n \in NS |-> parts[Idx(n)]], path |-> path,
         loaded |-> v0, glob |-> v0,
         preload |-> [n \in NS |-> NoLoader],
-        disk |-> <<>>,
+        disk |-> <<>>, opened |-> IF skip THEN {} ELSE {"base", "package", "string", "table"},
         flds |-> {}, nobj |-> nb, ninv |-> 0, log |-> <<>>]
 
 NamesWellFormed(names, parts) ==
@@ -219,6 +221,25 @@ Register(st, n, f) ==
 
 NoRes == <<"none">>
 
+(* The host opens a library (luaopen_xxx): luaL_register(libname): the table *)
+(* in package.loaded if there is one, else the global table, created on     *)
+(* demand, which becomes package.loaded[libname].  _LOADED is ONE table for *)
+(* the life of the state: luaopen_package finds it (luaL_findtable) and     *)
+(* publishes it as package.loaded, so whatever was registered before the    *)
+(* package library is opened - or opened again - stays loaded.  Opening the *)
+(* package library installs a new, empty package.preload.  (The harness     *)
+(* puts package.path back afterwards.)  "base" only counts as opened.       *)
+LibName(lib) == IF lib = "base" THEN "_G" ELSE lib
+Ready(st) == {"base", "package"} \subseteq st.opened
+OpenLib(st, lib) ==
+    LET n == LibName(lib)
+        s1 == [st EXCEPT !.opened = @ \cup {lib}]
+        s2 == IF lib = "package" THEN [s1 EXCEPT !.preload = [m \in DOMAIN @ |-> NoLoader]] ELSE s1
+    IN IF lib = "base" \/ n \notin SeqSet(st.names) \/ IsTbl(s2, s2.loaded[n]) THEN [st |-> s2, res |-> NoRes]
+       ELSE LET g == FindGlobalTable(s2, n)
+            IN IF g.err # <<>> THEN [st |-> s2, res |-> g.err]
+               ELSE [st |-> SetLoaded(g.st, n, g.v), res |-> NoRes]
+
 (* one top-level operation of a history at position pos: [st, res] *)
 Exec(st0, op, pos) ==
     LET st == [st0 EXCEPT !.log = <<>>] IN
@@ -229,18 +250,21 @@ Exec(st0, op, pos) ==
       [] op.op = "file" -> [st |-> WriteDisk(st, NormPath(op.path), Loader(pos, FALSE, op.syn, op.beh)), res |-> NoRes]
       [] op.op = "rmfile" -> [st |-> WriteDisk(st, NormPath(op.path), NoLoader), res |-> NoRes]
       [] op.op = "path" -> [st |-> [st EXCEPT !.path = op.tpl], res |-> NoRes]
+      [] op.op = "open" -> OpenLib(st, op.lib)
       [] op.op = "clear" -> [st |-> SetLoaded(st, op.n, Nil), res |-> NoRes]
       [] op.op = "glob" -> LET m == MkVal(st, op.kind) IN [st |-> [m.st EXCEPT !.glob[op.n] = m.v], res |-> NoRes]
       [] op.op = "register" -> Register(st, op.n, op.f)
 
+(* require, package.* and loaders need the base and package libraries *)
 OpWellFormed(st, op) ==
-    CASE op.op = "preload" -> WellFormedBeh(op.host, op.beh) /\ (op.beh.pre = "module" => Plain(st, op.n))
+    CASE op.op = "preload" -> Ready(st) /\ WellFormedBeh(op.host, op.beh) /\ (op.beh.pre = "module" => Plain(st, op.n))
       [] op.op = "file" -> /\ WellFormedBeh(FALSE, op.beh)
                            /\ (op.beh.pre = "module" => \A n \in SeqSet(st.names) : Plain(st, n))   \* any name may find the file
                            /\ Len(NormPath(op.path)) >= 1
       [] op.op = "rmfile" -> Len(NormPath(op.path)) >= 1
       [] op.op \in {"glob", "register"} -> Plain(st, op.n)
-      [] OTHER -> TRUE
+      [] op.op = "open" -> op.lib \in {"base", "package", "string", "table"} /\ (op.lib = "base" => "_G" \notin SeqSet(st.names))
+      [] OTHER -> Ready(st)        \* req, clear, unpreload, path
 
 (* what is visible after an operation *)
 FldStr(st, v) ==
